@@ -440,7 +440,7 @@ fn gen_faults(rng: &mut Rng, len: usize) -> Vec<Fault> {
             1 => Fault::Eintr { call: rng.range(1, 12) },
             2 => Fault::EioOnce { call: rng.range(1, 12) },
             3 => Fault::EioFrom { offset: rng.usize_below(len + 1) },
-            4 => Fault::BadUtf8 { offset: rng.usize_below(len.max(1)), byte: *rng.pick(&[0xFFu8, 0xC0, 0x80, 0xFE]) },
+            4 => Fault::BadUtf8 { offset: rng.usize_below(len.max(1)), byte: *rng.pick(&[0xFFu8, 0xC0, 0xC1, 0xFE]) },
             _ => Fault::Truncate { offset: rng.usize_below(len + 1) },
         };
         out.push(f);
